@@ -40,6 +40,7 @@ func main() {
 	repo := flag.String("repo", "/repo", "")
 	verif := flag.String("verif", "/verif", "")
 	out := flag.String("out", "/verif/.build/gen", "")
+	mode := flag.String("mode", "controlled", "controlled: rewrite + runtime + harness; race: only harness_race files, nothing rewritten")
 	flag.Parse()
 	os.RemoveAll(*out)
 	os.MkdirAll(*out, 0755)
@@ -225,6 +226,27 @@ func main() {
 			w.Close()
 			repl[f] = o
 		}
+	}
+	if *mode == "race" {
+		hroot := filepath.Join(*verif, "harness_race")
+		ents, _ := os.ReadDir(hroot)
+		for _, e := range ents {
+			if !e.IsDir() {
+				continue
+			}
+			pkgRel := strings.ReplaceAll(e.Name(), "__", "/")
+			files, _ := filepath.Glob(filepath.Join(hroot, e.Name(), "*.go"))
+			for _, f := range files {
+				b := strings.TrimSuffix(filepath.Base(f), ".go")
+				repl[filepath.Join(*repo, pkgRel, "zz_verifrace_"+b+"_test.go")] = f
+			}
+		}
+		data, _ := json.MarshalIndent(map[string]interface{}{"Replace": repl}, "", " ")
+		if err := os.WriteFile(filepath.Join(*out, "overlay.json"), data, 0644); err != nil {
+			die(2, "%v", err)
+		}
+		fmt.Printf("vgen: %d overlay entries (race mode)\n", len(repl))
+		return
 	}
 	rewriteDir("internal/server", nil, false)
 	rewriteDir("internal/endpoint", map[string]bool{"endpoint.go": true}, true)
